@@ -9,7 +9,10 @@ MODULES = ["Robsd.Props.C13"]
 GENS = []
 
 MARKERS = [b"==== t1 ====", b"==== run-regress-a b ====", b"===> sub/dir", b"==== x ===", b"====x ====", b"==== ====", b"====  ====",
-           b"==== a =====", b"===>", b"==== a ==== ", b" ==== a ====", b"==== = ====", b"==== a =b ===="]
+           b"==== a =====", b"===>", b"==== a ==== ", b" ==== a ====", b"==== = ====", b"==== a =b ====",
+           # test and directory names that contain an outcome keyword: the marker line itself matches
+           b"==== t-login-FAILED-password ====", b"===> regress/UNEXPECTED_PASS", b"==== DISABLED ====", b"==== SKIPPED-tests ====",
+           b"===> EXPECTED_FAIL/sub", b"==== FAILED ===="]
 OUTCOMES = [b"FAILED", b"SKIPPED", b"DISABLED", b"EXPECTED_FAIL", b"UNEXPECTED_PASS", b"test FAILED here", b"*** Error 1 (FAILED)",
             b"Regress: SKIPPED", b"XFAIL EXPECTED_FAIL UNEXPECTED_PASS", b"FAILE", b"failed", b"UNEXPECTED_PAS", b"DISABLED SKIPPED FAILED"]
 TRACE = [b"+ cd /usr/src/regress", b"+ make FAILED", b"+", b"+ echo SKIPPED", b"++ nested"]
